@@ -689,6 +689,17 @@ theorem emitted_strict_partial (T : Tables) (L : Lib J) (d : Disp σ J) (strict 
     · exact handleLine_strict T L d strict fin hdumps herr hhelp hd st l o ho
     · exact ih _ o ho
 
+/-- **dispatcher_emitted_strict** — `emitted_strict_partial` with the hypothesis moved from the dispatcher
+to the node: over the dispatcher model, if the node (descriptive data, module results, events) hands
+over only finite data and `logging` accepts only finite levels, every data part sent is strict JSON —
+for all streams and segmentations.  What remains assumed is `NodeFinite` (on the real node: the
+datatypes refuse NaN and clamp ±inf, `announceUpdate` replaces a time stamp that is not finite). -/
+theorem dispatcher_emitted_strict {ν κ : Type} (L : Lib J) (N : NodeIf ν κ J) (strict : Bytes → Bool) (fin : J → Bool)
+    (hdumps : ∀ j, fin j = true → strict (L.dumps j) = true) (herr : ∀ c, fin (L.errReport c) = true)
+    (hhelp : ∀ i, fin (L.helpText i) = true) (hN : NodeFinite fin N) (st : ν × κ) (chunks : List Bytes) :
+    EmittedStrict L strict (serve tables L (dispatch tables dtables N) [] st chunks).outs :=
+  emitted_strict_partial tables L _ strict fin hdumps herr hhelp (dispatch_finite tables dtables N fin hN) st chunks
+
 end strict
 
 /-! ## Non-vacuity: a lawful JSON layer and a dispatcher that does its part -/
@@ -783,6 +794,16 @@ def N0 : NodeIf Nat Unit Bool where
   exec := fun nu _ _ _ => (.exc, nu)
   events := fun _ _ _ => []
   book := fun k _ => k
+
+/-- `NodeFinite` is satisfiable: with `false` standing for the one value that is not finite, `N0` hands
+over `false` only as description of `m` — so it is finite for `fin := fun _ => true`, and not for `fin := id` -/
+example : NodeFinite (fun _ => true) N0 :=
+  ⟨fun _ _ _ => rfl, rfl, fun _ _ _ _ _ => rfl, fun _ _ _ _ _ _ => rfl, fun _ _ _ _ _ _ => rfl,
+    fun _ _ _ _ h => by simp [N0] at h, fun _ _ _ => rfl⟩
+
+example : ¬ NodeFinite (fun j => j) N0 := fun h => by
+  have := h.describe [109] false (by simp [N0])
+  exact absurd this (by decide)
 
 /-- `describe`, `read m`, `change m t`, `describe m`, a blank line, `describe x`, `read m`;
 the three `describe` lines and the blank line are left out -/
